@@ -64,10 +64,14 @@ PROP = {
             "command (EXECABORT), a command failing inside EXEC, a journal DEL. EVERY request prefix (state replayed with the fault failing again) -> fresh "
             "process StartPoint; resumed run from a random crash point to the end. Monitors independent of any model (unit committed = its data key exists): "
             "resume at a unit boundary with every earlier unit committed; sync: exactly the last committed; bisyncSeq = number of that unit; resume never "
-            "moves backwards along the log; a start whose own frontier HSET failed is not undercut by the next; no connection StartPoint used issues a request once the send loop runs (recovery precedes the loop); in-memory bisyncSeq and bisyncOffset at every "
+            "moves backwards along the log; a start whose own frontier HSET failed is not undercut by the next; tie-shape:recovery-request-after-start-returned (after a start that resumed after unit K no request saves a frontier <= K, deletes the snapshot or deletes / un-indexes journal records <= K: recognised by kind and number, first runs, resumed runs and the scenario c14recoverloop = start with journal records to consume + loop in one process); in-memory bisyncSeq and bisyncOffset at every "
             "request each name a committed prefix (sampled from the double's connection goroutines while the loop stores the two one after the other: judged "
             "one by one; that both name the SAME unit is judged where the code reads them - after the loop returned and at the next StartPoint of the process); second StartPoint of the SAME process (fast path), and a third after a full resynchronisation moved the root "
             "forward (real ResetStartPoint + setCheckpoint): the new root, not the in-memory frontier; resumed run leaves no unit uncommitted. "
+            "c14linger (all three modes): a loop stopped while a lane holds a unit, the SAME process starts again and replays on (unit 3 rewrites unit 1's key), "
+            "the stalled lane is released: no EXEC of the first loop after it returned, the target ends with the last value of every key. "
+            "c14recoverloop: snapshot at unit 1 + journal 2, 3, StartPoint (clean-up) and the loop for units 4, 5 under one virtual clock: every request prefix -> "
+            "fresh start never before the previous prefix's. "
             "distinct_nontrivial = distinct (mode, #requests, journal size, index size) with clean-up / (#events, #requests) / advancing rebuilds",
     "trusted": ["target double harness/overlay/pkg/vfdoubles/target.go (HSET/HGETALL/DEL/ZADD/ZREM/ZRANGEBYSCORE/INFO keyspace/SELECT semantics of a standalone Redis)",
                 "a unit's data, journal record and index entry are one MULTI/EXEC (dispatchBisyncUnit queues them on a TxnBatcher; C13/C18 check the batch) - modelled as the single request `commit`"],
@@ -75,12 +79,16 @@ PROP = {
         "standalone target: one recovery slot (bisyncRecoverySlots() = [0]), every unit forced to slot 0; cluster mode (16384 slot tags, one index per slot, lanes on several nodes) is covered by the theorems about `rebuild` and the coordinator only",
         "one numbering of units per namespace (World.e, root = e 0) in the invariant theorems; the numbering RESTART (root newer than the frontier after a finished full sync, no frontier, journal gap: start returns the root with seq 0) is in the start-point model (purge of the previous numbering's journal + snapshot, D25/D26) and tied by correspondence; that no unit is skipped across a restart of the numbering is checked on the real send loops (c14l, stale-frontier and two-lane cases), not proved",
         "the request-sequence comparison of c14s is a FRESH process per start; the in-memory frontier-miss fast path (second StartPoint of the same RedisOutput) is monitored in c14l: after the loop, and after a full resynchronisation moved the root forward (real ResetStartPoint + setCheckpoint, with and without the in-memory offset a completed SendRdb leaves) the same process must resume at the new root",
+        "resume_monotone_traffic / World.e fixed: the unit boundaries of the stream are the same after every restart, i.e. the output filter, database blacklist and slot mode are unchanged across restarts (units are what survives FilterCmd / FilterCmdKey / bypass; a configuration change renumbers the stream while journal leftovers of the old numbering survive)",
+        "resume_monotone_traffic / W.rid, hvis: every record of an execution carries ONE run id, which the source still reports; a source fail-over inside an execution (snapshot under the old id, records under the new, later the old id no longer reported) is outside the theorem",
+        "crash = the process stops and the requests it had not yet had applied are lost (TSys `.crash` drops both queues): bytes of a killed process still in a socket buffer of a stalled target node, executed after the next process started its recovery, are outside the model and the harness",
+        "inside ONE process the guard of TSys (no unit commits while a recovery request of a start is outstanding) holds because bisyncStartPoint is synchronous (facts c14_start_sync over the call graph of package syncer + pkg/redis/checkpoint, c14_startpoint_calls) AND because a send loop does not return before its lanes have finished (true of the parallel loop only since D35, 6f3a602; scenario c14linger keeps it)",
         "RDB phase units (bisync_rdb.go, `rdb:` records) are outside the property (incremental replay)",
         "cluster: the model has one journal / index; several slot tags are covered by `rebuild` (any record list), c14b (best latest over slots) and the cluster-typed starts c14k (2-3 slot tags, the 16384-tag scan, purge / clean-up over a Go map of index keys: order-insensitive monitors with an explicit oracle, every write a crash point and a fault point) - no request-sequence comparison there",
         "reviewer's mutant m5 (lane worker ignores validateBisyncExecReplies) is behaviourally equivalent: txnBatcher.Receive already rejects EXECABORT and inner errors (common.CheckTxnRepliesError) before the validation is reached - verified with the queued / inner fault cases under the mutant",
     ],
     "partial": [
-        "monotonicity of the resume point along executions WITH traffic is PROVED for the split-queue system (resume_monotone_traffic over Model/FrontierTraffic.lean: commits on any lanes in any order, reports in any order, ticks at any time under any FlushPolicy, every request applied on its own, crash after any request, restarts): sequence number and offset a fresh start would resume from never decrease, and name a committed prefix. What it rests on beyond the one-queue model: (1) no unit commits / is reported while a recovery request of the start is outstanding - source facts c14_start_sync / c14_startpoint_calls and the c14l monitor loop-recovery-overlaps-send-loop; (2) hypotheses: end offsets grow with the unit number, the source still reports the run id the units are recorded under (matchRun W.rid W.ids), index members are scored with their key's number and a root checkpoint exists in the initial state (both hold in a fresh namespace, traffic_init_inv, and are preserved). One numbering only (World.e): a numbering restart inside the execution happens only from resume number 0 (root fall-back), which the theorem covers; two numberings with different offsets are not spanned",
+        "monotonicity of the resume point along executions WITH traffic is PROVED for the split-queue system (resume_monotone_traffic over Model/FrontierTraffic.lean: commits on any lanes in any order, reports in any order, ticks at any time under any FlushPolicy, every request applied on its own, crash after any request, restarts): sequence number and offset a fresh start would resume from never decrease, and name a committed prefix. What it rests on beyond the one-queue model: (1) no unit commits / is reported while a recovery request of the start is outstanding - source facts c14_start_sync / c14_startpoint_calls and the c14l monitor loop-recovery-overlaps-send-loop; (2) hypotheses: end offsets grow with the unit number, the source still reports the run id the units are recorded under (matchRun W.rid W.ids), index members are scored with their key's number and a root checkpoint exists in the initial state (both hold in a fresh namespace, traffic_init_inv, and are preserved). One numbering only (World.e): a numbering restart inside the execution happens only from resume number 0 (root fall-back), which the theorem covers; two numberings with different offsets are not spanned. NOT a step of TSys: the in-process frontier-miss fast path (bisyncFrontierMissFastPath: after one miss every later StartPoint of the same RedisOutput answers from memory - the contiguous REPORTED prefix, possibly behind units already committed - or returns the root without purge): same-process restarts are outside the theorem and covered by the c14l monitors only (second / third StartPoint of the same process after clean loops, c14linger after a stopped parallel loop, c14recoverloop)",
         "numbering restart (root newer / no frontier / journal gap: the start returns the root with seq 0 and purges the previous numbering) is in the start-point model and tied by correspondence + monitors (c14s requests, start-fault-renumber-skips-unit, c14l stale-frontier cases); the invariant theorems fix ONE numbering (World.e): no theorem spans two numberings",
         "sync mode on a cluster (several latest records, root override without purge, rests on LoadBisyncLatestStartRecord ordering by end offset first): sync_mode_exact has one slot; c14b and the c14k sync cases check the real selection against an explicit oracle",
     ],
@@ -94,7 +102,7 @@ MANIFEST = {
             "any number of stop/start cycles, each cut after any number of recovery requests, never moves the resume point backwards. "
             "Tied to the code by differential correspondence of the real RebuildBisyncFrontier, bisyncFrontierCoordinator (virtual time) and "
             "bisyncStartPoint + clean-up against the target double with every request prefix replayed, plus independent monitors. "
-            "Four defects found and fixed (D12: recovery deleted journal records without saving the rebuilt frontier; D21: recovery keys read in the database GetCheckpoint visited last; D25: numbering restart over the stale frontier of the previous numbering skipped units; D26: journal gap made every start fail).",
+            "Five defects found and fixed (D35: the parallel send loop returned while a lane could still commit - after an in-process restart the stale unit overwrote newer data; D12: recovery deleted journal records without saving the rebuilt frontier; D21: recovery keys read in the database GetCheckpoint visited last; D25: numbering restart over the stale frontier of the previous numbering skipped units; D26: journal gap made every start fail).",
     "note": "trusted: Lean kernel (propext, Classical.choice, Quot.sound only), target double, extractor, harness; models hand-written and tied by correspondence; the flush policy is a parameter of the model (FlushPolicy, any value), the run passes the code's values",
     "technique": "Lean 4 proof (fold invariants, transition-system invariant by induction over step lists) + differential correspondence over every request prefix (crash points) under virtual time",
 }
